@@ -1,5 +1,4 @@
 """C15 — async_mutex gives mutual exclusion and never loses a waiter (v1 and v2 mutex)."""
-import os
 import time
 from .. import vlib
 from ..atomic import AtomicPart
@@ -10,19 +9,9 @@ V1 = ["v1_two", "v1_try", "v1_batch", "v1_three"]
 V2 = ["v2_handoff", "v2_handoff_stop", "v2_leak_seq", "v2_race_inline", "v2_fifo3", "v2_inline_stop",
       "v2_cancel_first", "v2_race_try", "v2_handoff_try"]
 PROPS = ["UnifexModel.Props.C15", "UnifexModel.Props.C15_v2a", "UnifexModel.Props.C15_v2b", "UnifexModel.Props.C15_v2c",
-         "UnifexModel.Props.C15_v2d", "UnifexModel.Props.C15_v2e"]
+         "UnifexModel.Props.C15_v2d", "UnifexModel.Props.C15_v2e", "UnifexModel.Props.C15_v2legacy"]
 
 
-def forwarder_forwards_stop_token():
-    """The v2 model has one switch that follows the code: does the receiver that completion_forwarder
-    connects to the rescheduling schedule() forward the waiter's stop token (code as it stands,
-    DESIGN §8 #3 — model `mutexv2`, theorems *_safe_partial + v2_lock_leak_witness) or answer with
-    unstoppable_token (the repair — model `mutexv2fix`, theorems *_fixed_safe)?  Read from the source."""
-    try:
-        txt = open(os.path.join(vlib.REPO, "include", "unifex", "detail", "completion_forwarder.hpp")).read()
-    except OSError:
-        return True
-    return "unstoppable_token" not in txt
 LIST_SCENARIOS = ["l_push_pop", "l_pop_remove", "l_push_remove", "l_empty_probe"]
 
 
@@ -76,11 +65,10 @@ class ListLinPart:
 
 
 def run(tier, seed, replay=None):
-    v2model = "mutexv2" if forwarder_forwards_stop_token() else "mutexv2fix"
     parts = [
         AtomicPart("mutexv1", "scn_c15.cpp", LIBS, "mutexv1", V1,
                    quick=dict(preemptions=2, max_execs=1500), random_execs=(150, 5000)),
-        AtomicPart("mutexv2", "scn_c15.cpp", LIBS, v2model, V2,
+        AtomicPart("mutexv2", "scn_c15.cpp", LIBS, "mutexv2", V2,
                    quick=dict(preemptions=2, max_execs=3500), random_execs=(150, 5000)),
         ListLinPart(),
     ]
@@ -100,10 +88,10 @@ def run(tier, seed, replay=None):
         trusted_extra=["harness/rt (cooperative scheduler, __tsan_* shim, pthread mutex/condvar interposition)",
                        "Core/Admit.lean trace-inclusion test", "g++ 12 -fsanitize=thread instrumentation"],
         explanation="Theorems: Props/C15 v1_mutual_exclusion, v1_no_lost_waiter, v1_fifo, v1_queue_asserts_hold (parametric, invariant induction) and "
-                    "v1_*_safe instances; Props/C15_v2a/b/c/d v2_*_safe (no stop request: full property) and v2_*_safe_partial (stop requests: mutual "
-                    "exclusion, at-most-once, cancelled-never-owns, FIFO, no deadlock unconditionally; lock-not-leaked / every-waiter-completes only when "
-                    "no stop request is pending between hand-off and delivery of the re-scheduled completion). The unguarded statement is FALSE for the "
-                    "code as it stands: v2_lock_leak_witness / v2_leak_seq_always_leaks (completion_forwarder forwards the waiter's stop token, DESIGN §8 #3); "
-                    "the witness history is reproduced by scenario v2_leak_seq on the real mutex in every schedule. "
-                    f"With the repaired forwarder (model mutexv2fix) the full property holds: v2_*_fixed_safe (Props/C15_v2e). v2 model used in this run: {v2model}. "
-                    "Tie: trace inclusion of real executions in the models; monitors: two holders, completed twice, lock leaked, lost waiter, FIFO.")
+                    "v1_*_safe instances; Props/C15_v2a..e v2_*_safe: the FULL property safeFull (mutual exclusion, at-most-once, cancelled-never-owns, a granted "
+                    "waiter never gets done, FIFO, no deadlock, every started waiter completes exactly once, lock not leaked) for each of the 9 instances, "
+                    "unconditionally, also with stop requests at any time (kernel-evaluated closure). The model's completion_forwarder hop is the code "
+                    "as it stands (rescheduling receiver answers get_stop_token with unstoppable_token). Props/C15_v2legacy is LEGACY documentation about a "
+                    "hand-transcribed pre-repair forwarder (DESIGN §8 #3) and is not tied to any code. "
+                    "Tie: trace inclusion of real executions in the models; monitors: two holders, completed twice, lock leaked, lost waiter, FIFO, done without "
+                    "a stop request; linearizability of atomic_intrusive_list histories (with the documented slack of empty()).")
